@@ -223,6 +223,7 @@ class Case:
         self.alt_lines = list(alt_lines)   # other lines of the mutated construct (e.g. the head of the bits type)
         self.doc_typed, self.doc_realisable, self.note = doc_typed, doc_realisable, note
         self.cls = cls    # 'C13' or 'C14' catalogue
+        self.extra = None  # other files of the case (imports)
 
     def text(self):
         return "\n".join(l.render() for l in self.lines) + "\n"
@@ -324,6 +325,8 @@ class Base:
         self.add("field", 2, start=L("int", "1"), size=L("int", "n"), tname="UInt", tbits=8, dims=[None], name="data", owner="Inner")
         self.envs["Inner"] = ienv
         self.cur_env = None
+        # user types named like prelude types, at nested and inline positions -------
+        self.build_collisions()
         # main struct --------------------------------------------------------------
         self.add("head", 0, what="struct", name="Main", params=[("p", "UInt:8"), ("pe", "Bb")], owner="Main")
         self.struct_default("Main")
@@ -399,12 +402,60 @@ class Base:
         self.add("if", 1, cond=X("bool", "==", [L("enum:Aa", "en"), L("enum:Aa", "Aa.AY")]), owner="Main")
         self.add("field", 2, start=L("int", str(off)), size=L("int", "2"), tname="Int", name="c1", owner="Main", scalar=("Int", 16))
         off += 2
+        # a conditional block of virtual fields only, and a mixed one (conditions are checked per field)
+        self.add("if", 1, cond=g.bool_expr(self.depth), owner="Main", virtual_only=True)
+        self.add("let", 2, name="cv0", value=g.int_expr(1), owner="Main", env=copy.deepcopy(env))
+        if r.random() < 0.5:
+            self.add("let", 2, name="cv1", value=g.bool_expr(1), owner="Main", env=copy.deepcopy(env))
+        self.add("if", 1, cond=X("bool", r.choice(["<", ">", "!="]), [L("int", "x"), g.const()]), owner="Main", mixed=True)
+        self.add("let", 2, name="cv2", value=g.int_expr(1), owner="Main", env=copy.deepcopy(env))
+        self.add("field", 2, start=L("int", str(off)), size=L("int", "1"), tname="UInt", name="c2", owner="Main", scalar=("UInt", 8))
+        off += 1
         # struct-level requires
         self.lines.insert(main_head, Line("attr", 1, name="requires", value=g.bool_expr(1), scope="struct", owner="Main",
                                           env=copy.deepcopy(env)))
         # dynamic tail
         self.add("field", 1, start=X("int", "+", [L("int", str(off)), L("int", "x")]), size=L("int", "w"), tname="UInt", tbits=8, dims=[None], name="tail", owner="Main", array=True)
         self.envs["Main"] = env
+        self.cur_env = None
+
+    def build_collisions(self):
+        """struct Coll: inline `enum flag:` (type Coll.Flag), nested `struct Float`, inline `bits u_int:` (type
+        Coll.UInt).  None of them is the prelude type of that name: Coll.Flag is an enum, the others have no value."""
+        r = self.r
+        self.add("head", 0, what="struct", name="Coll", owner="Coll")
+        self.struct_default("Coll")
+        self.add("raw", 1, text="struct Float:", owner="Coll")
+        self.add("raw", 2, text="0 [+1]  Bcd  q", owner="Coll")
+        self.enums["Coll.Flag"] = ["ON", "OFF"]
+        cenv = Env()
+        self.cur_env = copy.deepcopy(cenv)
+        self.add("raw", 1, text="0 [+1]  enum  flag:", owner="Coll")
+        self.add("raw", 2, text="ON = 1", owner="Coll")
+        self.add("raw", 2, text="OFF = 0", owner="Coll")
+        self.add("raw", 1, text="1 [+1]  Coll.Float  cs", owner="Coll")
+        self.add("raw", 1, text="2 [+1]  bits  u_int:", owner="Coll")
+        self.add("raw", 2, text="0 [+8]  Bcd  w", owner="Coll")
+        self.add("field", 1, start=L("int", "3"), size=L("int", "1"), tname="Bcd", name="n", owner="Coll", scalar=("Bcd", 8))
+        cenv.add("enum:Coll.Flag", "flag")
+        cenv.add("opaque", "cs")
+        cenv.add("opaque", "u_int")
+        cenv.add("int", "n")
+        cenv.present += ["flag", "cs", "u_int", "n"]
+        self.cur_env = copy.deepcopy(cenv)
+        g = ExprGen(r, cenv, {"Coll.Flag": ["ON", "OFF"], "Aa": self.enums["Aa"]})
+        F = lambda v: L("enum:Coll.Flag", "Coll.Flag." + v)
+        fl = L("enum:Coll.Flag", "flag")
+        self.add("let", 1, name="e1", value=X("bool", r.choice(["==", "!="]), [fl, F("ON")]), owner="Coll")
+        self.add("let", 1, name="e2", value=X("bool", r.choice(["&&", "||"]),
+                 [X("bool", "!=", [fl, F("OFF")]), X("bool", r.choice(["<", ">="]), [L("int", "u_int.w"), g.int_expr(1)])]), owner="Coll")
+        self.add("let", 1, name="e3", value=X("int", "?:", [X("bool", "==", [fl, F("ON")]), L("int", "cs.q"), g.int_expr(1)]), owner="Coll")
+        self.add("let", 1, name="e4", value=X("enum:Coll.Flag", "?:", [g.bool_expr(1), fl, F("OFF")]), owner="Coll")
+        self.add("if", 1, cond=X("bool", "==", [fl, F("ON")]), owner="Coll")
+        self.add("field", 2, start=L("int", "4"), size=L("int", "1"), tname="Bcd", name="m", owner="Coll", scalar=("Bcd", 8))
+        self.add("if", 1, cond=X("bool", "&&", [X("bool", "$present", [L("any", r.choice(["cs", "u_int", "flag"]))]), g.bool_expr(1)]), owner="Coll", virtual_only=True)
+        self.add("let", 2, name="e5", value=g.int_expr(1), owner="Coll")
+        self.envs["Coll"] = cenv
         self.cur_env = None
 
     def struct_default(self, owner):
@@ -530,7 +581,33 @@ def c13_violations(base, rng, per_rule=1):
     plant("field-size-not-integer", lambda l: l.kind == "field" and l.owner in base.envs and not l.f.get("inbits"), lambda t: "size", "int")
     plant("array-length-not-integer", lambda l: l.kind == "field" and l.owner in base.envs and any(d is not None for d in l.f.get("dims", [])),
           lambda t: "dims:%d" % [i for i, d in enumerate(t.f["dims"]) if d is not None][0], "int")
-    plant("condition-not-boolean", lambda l: l.kind == "if", lambda t: "cond", "bool")
+    for li, l in pos_sites(lambda l: l.kind == "if"):
+        env = _env_of(base, l) or Env()
+        c = base.case()
+        c.lines[li].set_slot("cond", wrong("bool", env, l))
+        cases.append(Case(c.lines, "condition-not-boolean", li + 1, doc_typed=False, cls="C13"))
+        # a bare field as the condition: integer, enum, or a struct/bits-typed (valueless) one
+        bare = [(k, n) for k in ("int", "opaque") for n in env.of(k)] + \
+               [(k, n) for k in env.names if k.startswith("enum:") for n in env.of(k)]
+        if bare:
+            k, n = rng.choice(bare)
+            c = base.case()
+            c.lines[li].set_slot("cond", L(k, n))
+            cases.append(Case(c.lines, "condition-not-boolean", li + 1, doc_typed=False, cls="C13"))
+    # valueless / enum-typed fields whose type is NAMED like a prelude type, as boolean operands
+    for li, l in pos_sites(lambda l: l.kind == "let" and l.owner == "Coll" and l.f["value"].k == "bool"):
+        for rule, nm, k in (("logical-enum-operand", "flag", "enum:Coll.Flag"), ("logical-opaque-operand", "cs", "opaque"),
+                            ("logical-opaque-operand", "u_int", "opaque")):
+            c = base.case()
+            c.lines[li].f["value"] = X("bool", rng.choice(["&&", "||"]), rng.sample([L(k, nm), c.lines[li].f["value"]], 2))
+            cases.append(Case(c.lines, rule, li + 1, doc_typed=False, cls="C13"))
+        c = base.case()
+        c.lines[li].f["value"] = X("bool", "==", [L("enum:Coll.Flag", "flag"), L("bool", "true")])
+        cases.append(Case(c.lines, "equality-enum-boolean", li + 1, doc_typed=False, cls="C13"))
+        c = base.case()
+        c.lines[li].f["value"] = X("bool", "==", [L("opaque", "u_int"), L("int", "1")])
+        cases.append(Case(c.lines, "equality-opaque-operand", li + 1, doc_typed=False, cls="C13"))
+        break
     plant("requires-not-boolean", lambda l: l.kind == "attr" and l.f["name"] == "requires", lambda t: "value", "bool")
     # enum value (no environment: constants only)
     ev = pos_sites(lambda l: l.kind == "enum_value")
@@ -574,6 +651,30 @@ def c13_violations(base, rng, per_rule=1):
             if l.f["name"] == "Main":
                 cases.append(Case(c.lines, rule, li + 1, doc_typed=False, cls="C13"))
     return cases
+
+
+def c13_welltyped_extras(base, rng):
+    """Well-typed variants (doc_typed=True) that exercise typing at positions the base does not."""
+    out = []
+    lines = base.lines
+    # an array length whose expression has a boolean SUB-expression
+    for li, l in enumerate(lines):
+        if l.kind == "field" and l.f.get("name") == "arr" and l.owner == "Main":
+            c = base.case()
+            n = c.lines[li].f["dims"][0]
+            c.lines[li].f["dims"] = [X("int", "?:", [X("bool", "==", [L("int", "x"), L("int", "1")]), n, n])]
+            out.append(Case(c.lines, "ok:array-length-with-boolean-subexpression", li + 1, doc_typed=True, cls="C13"))
+    # a top-level type of another module that happens to be called Flag
+    c = base.case()
+    c.lines.insert(0, Line("raw", 0, text='import "other.emb" as oth'))
+    c.lines += [Line("raw", 0, text="struct UsesImported:"),
+                Line("raw", 1, text='[$default byte_order: "LittleEndian"]'),
+                Line("raw", 1, text="0 [+1]  oth.Flag  of"),
+                Line("raw", 1, text="let ob = of == oth.Flag.%s" % rng.choice(["ON", "OFF"]))]
+    case = Case(c.lines, "ok:imported-type-named-flag", len(c.lines), doc_typed=True, cls="C13")
+    case.extra = {"other.emb": "enum Flag:\n  ON = 1\n  OFF = 0\n"}
+    out.append(case)
+    return out
 
 
 def _this_env(env, line):
